@@ -51,6 +51,7 @@ def ops(t):
         'image': lambda ts: [R('DYLD_uuid_map_a', 0, (0x11 * t, 0x22, 0x1000 * t, 3), t, ts)],
         'dlopen-500': lambda ts: [R('DBG_DYLD_TIMING_DLOPEN', 1, (0, 500, 1, 0), t, ts), R('DBG_DYLD_TIMING_DLOPEN', 2, (0, 0xbeef, 0, 0), t, ts + 1)],
         'announce-500': lambda ts: [R('TRACE_STRING_GLOBAL', 3, tid=t, ts=ts, data=B.global_string_chunks(0, 500, '/usr/lib/libz')[0][0])],
+        'terminate-7': lambda ts: [R('TRACE_DATA_THREAD_TERMINATE', 0, (7, 0, 0, 0), t, ts)],
         'terminate-self': lambda ts: [R('TRACE_DATA_THREAD_TERMINATE', 0, (t, 0, 0, 0), t, ts)],
         'name-self': lambda ts: [R('TRACE_STRING_THREADNAME', 0, tid=t, ts=ts, data=b'worker'.ljust(32, b'\0'))],
         'newthread-pair': lambda ts: [R('TRACE_DATA_NEWTHREAD', 0, (7, 70, 0, 0), t, ts), R('TRACE_STRING_NEWTHREAD', 0, tid=t, ts=ts + 1, data=b'kid'.ljust(32, b'\0'))],
@@ -64,6 +65,11 @@ def ops(t):
 
 OPNAMES = list(ops(1))
 CORE_OPS = ['open+lookup', 'getpid', 'reply_port', 'trace-exec', 'lone-lookup', 'dyld-map-b', 'mmap', 'exec-rename', 'execve-renaming']
+
+
+# operations through which one thread's traces depend on another thread's records
+CROSS_ALPHABET = [('announce-500', 1), ('announce-500', 2), ('dlopen-500', 1), ('dlopen-500', 2), ('newthread-pair', 1), ('newthread-pair', 2),
+                  ('getpid@7', 1), ('exec-rename', 1), ('getpid', 1), ('getpid', 2), ('open+lookup', 2), ('terminate-7', 1)]
 
 
 def build_stream(opseq):
@@ -217,9 +223,9 @@ class C13(Check):
             'the filter, also on streams with a 300-record call and with class lists that repeat an entry (the process a trace belongs to is the one its thread has when the trace is reported, read from the unfiltered run). (B) request histories: all sequences of <=3 requests over {traces, formatted_traces, callstacks} on one '
             'parser object x 11 streams (incl. samples before/after image announcements, a string id / thread name / new thread used before the record that announces it, dumps cut in the middle of operations) x class lists x subclass lists x '
             'tid/process {none, set} x {list, tuple}: each request equals the same request on a fresh parser; filter settings equal '
-            'and same type afterwards. (C) the command-line tool: `traces --no-color` with every tid/process/class/subclass option combination prints the library\'s lines for the same settings. states = distinct configurations; transitions = requests; non-trivial = a non-empty filter.')
-    assumptions = ('streams do not rely on table updates made by records that the filter itself removes (the statement does not say '
-                   'whose tables "satisfy the filter" refers to in that case)',)
+            'and same type afterwards. (X) all sequences of <=2 (quick) / <=3 (thorough) operations over 12 kinds through which one thread depends on what another thread emitted (global string announced by a sibling and used by dlopen, a thread declared by its parent, a process renamed by another thread, a terminate record naming another thread) x tid {None,1,2,7} x process {None, static name, declared name, declared pid, renamed name} x class lists {[], [4], [0x1f], [4,0x1f]}: same oracle. (C) the command-line tool: `traces --no-color` with every tid/process/class/subclass option combination prints the library\'s lines for the same settings. states = distinct configurations; transitions = requests; non-trivial = a non-empty filter.')
+    assumptions = ('streams do not rely on table updates made by records of a class that a CLASS filter removes, other than the helper classes the statement names '
+                   '(kernel trace records, lookups); records of OTHER THREADS that a thread / process filter would hide are relied on (sub-space X): the statement demands identical text',)
 
     def bounds(self):
         return {'configs': len(TIDS) * len(PROCS) * len(class_lists()) * len(SUBCLASS_LISTS), 'request_histories': 39}
@@ -231,6 +237,7 @@ class C13(Check):
         out = [('A', ch) for ch in chunked(streams, 70 if L == 2 else 200)]
         out += [('B', si, as_tuple) for si in range(len(HIST_STREAMS)) for as_tuple in (False, True)]
         out.append(('A+', None))
+        out += [('X', ch) for ch in chunked(list(seqs(CROSS_ALPHABET, 2 if self.tier == 'quick' else 3, 1)), 12 if self.tier == 'quick' else 120)]
         out.append(('cli',))
         return out
 
@@ -262,6 +269,19 @@ class C13(Check):
                                     acc.violation('cli-traces-differ-from-library', {'kind': 'cli', 'args': args},
                                                   {'exit': code, 'error': repr(exc)[:200], 'got': lines[:3], 'expected': exp[:3]})
 
+    def run_cross(self, seqs_, acc):
+        """streams in which one thread's traces depend on records ANOTHER thread emitted (a string announced by a sibling, a
+        thread declared by its parent, a process renamed by another thread) x thread / process / class filters: the filtered
+        listing is still the unfiltered one restricted to the filter."""
+        cfgs = [(t, p, c, ()) for t in (None, 1, 2, 7) for p in (None, 'A', 'kid', '70', 'Z1') for c in ((), (4,), (0x1f,), (4, 0x1f))]
+        for opseq in seqs_:
+            for cfg in cfgs:
+                bad = judge_commute(opseq, cfg, False)
+                acc.case(nontrivial=cfg[0] is not None or cfg[1] is not None, transitions=2, state=h64((cfg, 'X')))
+                if bad:
+                    acc.violation(bad[0] + ':cross-thread', {'kind': 'A', 'ops': [list(o) for o in opseq], 'cfg': [cfg[0], cfg[1], list(cfg[2]), list(cfg[3])], 'as_tuple': False},
+                                  {k: (v if not isinstance(v, list) else v[:3] + ['...']) for k, v in bad[1].items()})
+
     def run_aplus(self, acc):
         """the commutation check on a stream with a very long call, and with class lists that repeat an entry."""
         dup_lists = [(4, 4), (3, 3), (4, 1, 4), (7, 7), (1, 1)]
@@ -289,6 +309,8 @@ class C13(Check):
                         acc.violation(bad[0], {'kind': 'A', 'ops': [list(o) for o in opseq], 'cfg': [None, None, list(c), list(s)], 'as_tuple': False}, bad[1])
 
     def run_shard(self, desc, acc):
+        if desc[0] == 'X':
+            return self.run_cross(desc[1], acc)
         if desc[0] == 'A+':
             return self.run_aplus(acc)
         if desc[0] == 'cli':
